@@ -66,3 +66,34 @@ Proof.
   rewrite iterM_app. unfold bind. rewrite iterM_map. cbn [fst snd].
   destruct (iterM (exec_stanza t fl cfg glob regexes find call fuel st) m s p) as [[[u s1] p1]| | |]; try reflexivity. apply IH.
 Qed.
+
+(* the block list spelled out: per stanza in file order, per match of that stanza in match order, exactly one block;
+   matches supplied for stanzas that do not exist (and stanzas without a match list) contribute nothing *)
+Lemma blocks_flat_map {A} : forall sts (ms : list (list A)),
+  blocks sts ms = flat_map (fun sm : stanza * list A => map (fun x => (fst sm, x)) (snd sm)) (combine sts ms).
+Proof.
+  induction sts as [|st sts IH]; intros [|m ms]; cbn [blocks combine flat_map fst snd]; try reflexivity.
+  rewrite IH. reflexivity.
+Qed.
+
+Lemma blocks_length {A} : forall sts (ms : list (list A)),
+  length (blocks sts ms) = fold_right (fun sm acc => (length (snd sm) + acc)%nat) 0%nat (combine sts ms).
+Proof.
+  induction sts as [|st sts IH]; intros [|m ms]; cbn [blocks combine fold_right fst snd length]; try reflexivity.
+  rewrite app_length, map_length, IH. reflexivity.
+Qed.
+
+(* the k-th match of the i-th stanza is the block at position (number of matches of earlier stanzas) + k *)
+Lemma blocks_nth {A} : forall sts (ms : list (list A)) i k st m x,
+  nth_error sts i = Some st -> nth_error ms i = Some m -> nth_error m k = Some x ->
+  nth_error (blocks sts ms) (length (blocks (firstn i sts) (firstn i ms)) + k) = Some (st, x).
+Proof.
+  induction sts as [|st0 sts IH]; intros ms i k st m x Hs Hm Hx.
+  - destruct i; discriminate.
+  - destruct ms as [|m0 ms]; [destruct i; discriminate|].
+    destruct i as [|i]; cbn [nth_error firstn blocks length] in *.
+    + injection Hs as <-. injection Hm as <-. cbn [Nat.add]. rewrite nth_error_app1 by (rewrite map_length; apply nth_error_Some; congruence).
+      rewrite nth_error_map, Hx. reflexivity.
+    + rewrite app_length, map_length, <- Nat.add_assoc. rewrite nth_error_app2 by (rewrite map_length; apply Nat.le_add_r).
+      rewrite map_length, Nat.add_comm, Nat.add_sub. eapply IH; eassumption.
+Qed.
